@@ -21,6 +21,10 @@ def writesOf : List Op → List Entry
 theorem snapBegin_preserves_abs {s : State} (h : Inv s) (k : Key) (t : Int) :
     (step s .snapBegin).1.abs k t = s.abs k t := abs_stepSnapBegin h k t
 
+/-- a failing `WriteSnapshot` attempt (and the retry of one) does not change what is readable -/
+theorem snapFail_preserves_abs {s : State} (h : Inv s) (k : Key) (t : Int) :
+    (step s .snapFail).1.abs k t = s.abs k t := abs_stepSnapFail h k t
+
 theorem snapStep_preserves_abs {s : State} (h : Inv s) (k : Key) (t : Int) :
     (step s .snapStep).1.abs k t = s.abs k t := abs_stepSnapStep h k t
 
@@ -51,6 +55,8 @@ theorem step_refines {s : State} {w : List Entry} (hi : Inv s) (ha : AbsIs s w) 
     simp only [step, writesOf, List.append_nil, abs_stepWrite, Log.get_append, ha k t]
   · exact ⟨inv_stepSnapBegin hi, fun k t => by
       simp only [writesOf, List.append_nil]; rw [← ha k t]; exact abs_stepSnapBegin hi k t⟩
+  · exact ⟨inv_stepSnapFail hi, fun k t => by
+      simp only [writesOf, List.append_nil]; rw [← ha k t]; exact abs_stepSnapFail hi k t⟩
   · exact ⟨inv_touch (inv_stepSnapStep hi), fun k t => by
       simp only [writesOf, List.append_nil]; rw [← ha k t]; exact abs_stepSnapStep hi k t⟩
   · exact ⟨inv_touch (inv_stepSnapTo hi _), fun k t => by
@@ -118,6 +124,7 @@ theorem checkFrom_runFrom (ops : List Op) : ∀ (s : State) (w : List Entry), In
     cases op <;> simp only [inScope, Bool.false_eq_true] at hop
     · simp only [checkFrom, step, if_true]
       exact hrest _ (by simp [writesOf])
+    · simp only [checkFrom, inScope, if_true]; exact hrest _ (by simp [writesOf])
     · simp only [checkFrom, inScope, if_true]; exact hrest _ (by simp [writesOf])
     · simp only [checkFrom, inScope, if_true]; exact hrest _ (by simp [writesOf])
     · simp only [checkFrom, inScope, if_true]; exact hrest _ (by simp [writesOf])
